@@ -251,6 +251,60 @@ func c14(c *Ctx) {
 		lits := stringLiteralsOf(gpk, "generateStructTypeAndMethods")
 		r.Check(ok && contains(lits, "flags") && contains(lits, "bitflags") && contains(lits, "FlagIndex"), "R14.F", "flagindex:position-of-flags", c.pos(gs.Pos()), "FlagIndex() returns the index of the parameter named flags of type bitflags")
 	}
+	// ---- R14.G -----------------------------------------------------------------------------------
+	r.Rule("R14.G", "positional-argument grouping: two neighbouring parameters share one type only if every parameter field that determines the emitted Go type (Type, IsVector) is equal", 1)
+	if ga := c.fn("R14.G", load.GenPkg, "*Generator", "generateArgumentsForMethod"); ga != nil {
+		tr := an.NewTracer()
+		cmp, use := map[string]bool{}, map[string]bool{}
+		fieldOf := func(v ssa.Value) string {
+			o := tr.OriginString(v)
+			if i := strings.LastIndex(o, "tlparser.Parameter."); i >= 0 {
+				f := o[i+len("tlparser.Parameter."):]
+				if !strings.ContainsAny(f, ".[(| ") {
+					return f
+				}
+			}
+			return ""
+		}
+		for _, i := range an.Ifs(ga) {
+			cd, ok := an.Classify(i)
+			if !ok {
+				continue
+			}
+			fx, fy := "", ""
+			if cd.X != nil {
+				fx = fieldOf(cd.X)
+			}
+			if cd.Y != nil {
+				fy = fieldOf(cd.Y)
+			}
+			switch {
+			case cd.Kind == "eq" && fx != "" && fx == fy:
+				cmp[fx] = true // p.F compared with next.F
+			case fx != "":
+				if _, isConst := cd.Y.(*ssa.Const); cd.Kind == "bool" || !isConst {
+					use[fx] = true
+				}
+			}
+		}
+		for _, cs := range an.Calls(ga) {
+			if strings.HasSuffix(cs.Name, "typeIdFromSchemaType") && len(cs.Common.Args) == 2 {
+				if f := fieldOf(cs.Common.Args[1]); f != "" {
+					use[f] = true
+				}
+			}
+		}
+		var missing []string
+		for f := range use {
+			if !cmp[f] {
+				missing = append(missing, f)
+			}
+		}
+		sort.Strings(missing)
+		r.Check(len(use) >= 2 && len(missing) == 0, "R14.G", "argument-grouping:key", c.pos(ga.Pos()),
+			sprintf("fields that shape the argument type: %v; fields compared with the next parameter before omitting the type: %v; not compared: %v — e.g. `a:string b:Vector<string>` would be emitted as `a, b []string`", an.SortedKeys(use), an.SortedKeys(cmp), missing))
+	}
+
 	plits := stringLiteralsOf(ppk, "parseDefinition")
 	r.Check(contains(plits, "flags") && contains(plits, "#") && contains(plits, "bitflags"), "R14.F", "flagindex:parser-marks-flags-word", "", "the parser turns `flags:#` into the pseudo-type bitflags")
 }
